@@ -137,7 +137,7 @@ PROPS["C06"] = {
     "modelled": WHOLE_FILE_MODELLED,
     "level_text": "Lean theorems: the streaming comparison of the verify sink succeeds iff the existing bytes equal the concatenation of the chunks (any alphabet); a verify pass reports ok iff the output holds exactly the fresh bytes; opening/finishing never changes the file system; verify performs no file-system operation of its own; project level (abstract in what a pass computes, any graph and schedule): if a verify run succeeds, every file in the dependency closure of the inputs was verified and holds exactly the value a build would write, and conversely up-to-date outputs never produce an error while a reached mismatch fails its pass. On the implementation: every tampering class of every output incl. dependency outputs, option mismatch, verdict compared with a fresh build, outputs' (inode, mtime, bytes) unchanged.",
     "design_ref": '5 C06, 4.5',
-    "level_note": "The project-level theorem is over the abstract worker model (render local in the dependencies); for the concrete preprocessor the iff is proved per source (verify_pass_ok_iff_output_up_to_date: a verify pass ends ok iff a build pass from the same tree ends ok and leaves the output path with the bytes already there; relational proof), the composition over whole projects is tied by M7. The model's verify sink compares the whole output at the end; stream_compare_iff shows the streaming form is equivalent.",
+    "level_note": "The project-level theorem is over the abstract worker model (render local in the dependencies); for the concrete preprocessor the iff is proved per source (verify_pass_ok_iff_output_up_to_date: a verify pass ends ok iff a build pass from the same tree ends ok and leaves the output path with the bytes already there; relational proof), for whole projects the forward direction is proved over the concrete model of Txtpp::run along the reference schedule (verify_ok_means_nothing_to_rebuild: lockstep of the verify run with the only-if-needed run of the same tree, no condition on what the sources read; verify_ok_means_build_reproduces_the_tree chains it with the C09 theorem; side conditions evaluated by the driver on every built tree of this job, counts `whole-project-theorem:verify=*`); the whole-project converse needs distinct output paths and is tied by M7 and the fresh-build oracle. The model's verify sink compares the whole output at the end; stream_compare_iff shows the streaming form is equivalent.",
     "technique": 'Lean 4 proof (stream-compare iff, sink lemmas, world invariant of a pass) + history-based differential correspondence',
     "assumptions": ['commands are deterministic functions of the files the domain lets them read'],
 }
